@@ -142,6 +142,17 @@ func propC01(c *ctx) error {
 			return err
 		}
 	}
+	// deep documents: explicitly nested elements and unclosed items that nest inside each other
+	for _, depth := range []int{64, 255, 256, 257, 300, 700} {
+		deep := strings.Repeat("<div>", depth) + "x" + strings.Repeat("</div>", depth)
+		items := "<ul>" + strings.Repeat("<li>item\n", depth) + "</ul>"
+		for _, src := range []string{deep, items} {
+			res.count("deep_documents")
+			if err := run(src, confs[0], "deep"); err != nil {
+				return err
+			}
+		}
+	}
 	if !c.quick() {
 		// exhaustive: every string of length <= 5 over the alphabet < > / = " ' space a !
 		alpha := []string{"<", ">", "/", "=", "\"", "'", " ", "a", "!"}
